@@ -223,13 +223,55 @@ func runScenario(sc Scen) *Result {
 			res.Expected = append(res.Expected, row)
 		}
 	}
-	for !sameItems(w.snapshot(), res.Expected) && time.Now().Before(deadline) {
+	// quiescent = the table is the expected one AND every returned request on a valid, eventually
+	// registered resource has had its successful DELETE (a request without a row, or a duplicate,
+	// is still being retried while the table already looks final)
+	want := map[Item]int{}
+	for i, q := range sc.Reqs {
+		if res.Answers[i].Returned && gone[q.Item] {
+			want[q.Item]++
+		}
+	}
+	settled := func() (bool, int) {
+		w.mu.Lock()
+		n := len(w.trace)
+		got := map[Item]int{}
+		for _, e := range w.trace {
+			if e.K == "D" && e.Ok && e.X >= 1 {
+				got[Item{X: e.X, B: e.B, R: e.R}]++
+			}
+		}
+		w.mu.Unlock()
+		for it, k := range want {
+			if got[it] < k {
+				return false, n
+			}
+		}
+		return true, n
+	}
+	// beyond the deadline keep waiting only while the database still sees activity (loaded machine),
+	// never more than 20 s
+	hard := start.Add(limit + 20*time.Second)
+	lastN, lastChange := -1, time.Now()
+	for {
+		ok, n := settled()
+		if ok && sameItems(w.snapshot(), res.Expected) {
+			break
+		}
+		now := time.Now()
+		if n != lastN {
+			lastN, lastChange = n, now
+		}
+		if now.After(deadline) && (now.Sub(lastChange) > time.Second || now.After(hard)) {
+			break
+		}
 		time.Sleep(iv / 2)
 	}
 	time.Sleep(5*iv + 5*time.Millisecond) // anything deleted late shows up in the final sample
 	res.Final = sortItems(w.snapshot())
 	res.Expected = sortItems(res.Expected)
-	res.Quiescent = sameItems(res.Final, res.Expected)
+	st, _ := settled()
+	res.Quiescent = st && sameItems(res.Final, res.Expected)
 	res.WaitedMs = int(time.Since(start) / time.Millisecond)
 	if !res.Quiescent {
 		buf := make([]byte, 4<<20)
